@@ -211,6 +211,12 @@ def registration(n_ops=1):
         snap_m = dict(validators.meta_schemas.store)
         try:
             made = []
+            with warnings.catch_warnings():
+                warnings.simplefilter("ignore")
+                for i in range(len(ops)):            # dispatch on the ids before anything is registered for them (both spellings)
+                    for spelling in ("http://example.test/meta-%d" % i, "http://example.test/meta-%d#" % i):
+                        if validators.validator_for({"$schema": spelling}) is not tp.CLS[7]:
+                            return False, "ok"
             for i, o in enumerate(ops):
                 mid = "http://example.test/meta-%d" % i
                 if o == 0:
